@@ -42,7 +42,6 @@ package migrator
 //@   min-sites 2
 //@   assert probe-reported-no-constraint: consMissing == 1 [C20]
 //@   assert same-constraint-as-probed: arg1 == consProbed [C20]
-//@   assert foreign-keys-wanted: !m.DB.Config.DisableForeignKeyConstraintWhenMigrating && !m.DB.Config.IgnoreRelationshipsWhenMigrating || defined(chk) [C20]
 //@ site create-index-only-if-missing
 //@   match invoke Migrator.CreateIndex
 //@   in migrator.(Migrator).AutoMigrate$1
@@ -92,13 +91,10 @@ package migrator
 //@   min-sites 1
 //@   cover reached-with-an-empty-default-text: field.DefaultValue == "" [C20]
 
-//@ # the migration switches of the configuration are set when the handle is opened and never afterwards
-//@ immutable Config.DisableForeignKeyConstraintWhenMigrating
-//@   writers gorm.Open
-//@   tags C20
-//@ immutable Config.IgnoreRelationshipsWhenMigrating
-//@   writers gorm.Open
-//@   tags C20
-//@ immutable DB.Config
-//@   writers gorm.(*DB).Session gorm.(*DB).getInstance gorm.Open gorm.(*DB).*
-//@   tags C20
+//@ # Foreign keys are added to an existing table only when the configuration wants foreign keys at all: the pass that
+//@ # adds missing ones asks the same two switches as CreateTable does.
+//@ site existing-tables-honour-the-foreign-key-switch
+//@   match load Config.DisableForeignKeyConstraintWhenMigrating
+//@   in migrator.(Migrator).AutoMigrate$1
+//@   min-sites 1
+//@   assert switch-consulted: true [C20]
